@@ -253,7 +253,7 @@ def run(ck):
             th = vm.random_thermo(d, rng, interact=True, site_energies=True)
             if r2 == 1:  # strong / weak exchange
                 th["eneT2"] = th["eneT2"] + rng.choice([-6.0, 6.0])
-            if r2 == 0 and len(sl) == 1:
+            if r2 == 0 and not vm.exchange_mixes_stars(d):
                 # exchange fast enough for the large-omega2 algorithm, inequivalent exchange classes spread over decades
                 # (crystals outside the known large-omega2 failure regimes of C08 only)
                 th["preT2"] = th["preT2"] * 10.0 ** rng.uniform(9, 11) * np.array([10.0 ** rng.uniform(0, 3) for _ in th["preT2"]])
